@@ -70,6 +70,9 @@ class Dual:
         return Dual(-self.val, -self.jac)
 
     def __getitem__(self, i):
+        idx = i if isinstance(i, tuple) else (i,)
+        if any(e is Ellipsis for e in idx):  # the Jacobian carries one more (last) axis, which an Ellipsis must not swallow
+            return Dual(self.val[i], self.jac[idx + (slice(None),)])
         return Dual(self.val[i], self.jac[i])
 
 
@@ -96,6 +99,17 @@ class DualNS:
     def maximum(a, k):
         assert not isinstance(k, Dual)
         return Dual(onp.maximum(a.val, k), (a.val > k).astype(float)[..., None] * a.jac)
+
+    @staticmethod
+    def where(cond, a, b):
+        # the condition is read for its truth value only
+        cv = cond.val if isinstance(cond, Dual) else onp.asarray(cond)
+        n = next(p.n for p in (a, b) if isinstance(p, Dual))
+        a, b = Dual.lift(a, n), Dual.lift(b, n)
+        A, B, Cc = onp.broadcast_arrays(a.val, b.val, cv)
+        ja = onp.broadcast_to(a.jac, A.shape + (n,))
+        jb = onp.broadcast_to(b.jac, A.shape + (n,))
+        return Dual(onp.where(Cc, A, B), onp.where(Cc.astype(bool)[..., None], ja, jb))
 
     @staticmethod
     def reshape(a, shape):
